@@ -19,7 +19,7 @@ use crate::with_spec;
 pub const RULE: &str = "(input, partition of the input into async read results, Poll::Pending pattern, buffered-master set): a scripted AsyncRead owned by the harness hands out the bytes in the given partition (never more than the caller's buffer), \
 optionally answering Poll::Pending (self-waking) before any read, driven on futures::executor::block_on; both `next().await` loops and `into_stream()` are exercised. Oracle: item sequence, last_emitted_tag_offset() after every item and the first error equal those of the blocking TagIterator over the whole slice; \
 after the end, None is returned again. OPEN FINDING D14 (nonblocking.rs performs one source read per next() and lets the inner blocking iterator take 'no more bytes yet' for end of input): schedules in which some next() call is made before the bytes of the tag it has to parse have been delivered are excluded BY CONSTRUCTION and counted; \
-the generator builds multi-read partitions in which every call's tag is already delivered (computed from the blocking parse), single-read schedules, and inputs > 64 KiB (larger than the adapter's transfer buffer). With buffered masters only single-read schedules are generated. \
+the generator builds multi-read partitions in which every call's tag is already delivered (computed from the blocking parse), single-read schedules, and inputs > 64 KiB (larger than the adapter's transfer buffer). With buffered masters the per-call byte requirements are simulated from the unbuffered parse (a call that emits a Full item needs everything up to the tag that follows the master). \
 Non-trivial: partition with >= 2 non-empty reads, or >= 1 Pending; distinct by (input, schedule, buffered set).";
 
 pub const ASSUMPTIONS: &[&str] = &[
@@ -197,6 +197,88 @@ pub fn needs_per_call(base: &[Obs], len: usize) -> Vec<usize> {
     need
 }
 
+
+/// The same for a run WITH buffered masters, derived from the unbuffered parse `u` of the same bytes: a call whose next item
+/// is the Start of a buffered master keeps reading (batch after batch) until the matching End has been queued — which happens
+/// in the batch that reads the tag FOLLOWING the master (or at end of input).
+pub fn needs_per_call_buffered(u: &[Obs], buffered: &[u64], len: usize) -> Option<Vec<usize>> {
+    if first_err(u).is_some() {
+        return None;
+    }
+    let items: Vec<(&Flat, usize)> = u.iter().filter_map(|o| if let Obs::Item(f, off) = o { Some((f, *off)) } else { None }).collect();
+    let nonend_offsets: Vec<usize> = items.iter().filter(|(f, _)| !f.is_end()).map(|(_, o)| *o).collect();
+    // batches: (items, bytes needed)
+    let mut batches: Vec<(Vec<&Flat>, usize)> = Vec::new();
+    let mut k = 0;
+    let mut i = 0;
+    while i < items.len() {
+        let mut j = i;
+        while j < items.len() && items[j].0.is_end() {
+            j += 1;
+        }
+        if j < items.len() {
+            let need = nonend_offsets.get(k + 1).copied().unwrap_or(len);
+            k += 1;
+            batches.push((items[i..=j].iter().map(|x| x.0).collect(), need));
+            i = j + 1;
+        } else {
+            batches.push((items[i..j].iter().map(|x| x.0).collect(), len));
+            i = j;
+        }
+    }
+    let mut queue: std::collections::VecDeque<&Flat> = std::collections::VecDeque::new();
+    let mut b = 0usize;
+    let mut needs = Vec::new();
+    loop {
+        let mut need = 0usize;
+        if queue.is_empty() {
+            if b >= batches.len() {
+                break;
+            }
+            queue.extend(batches[b].0.iter().copied());
+            need = need.max(batches[b].1);
+            b += 1;
+        }
+        if let Some(Flat::Start(id)) = queue.front().copied() {
+            if buffered.contains(id) {
+                // read on until the matching End is queued
+                let mut pos = 1usize;
+                let mut depth = 0usize;
+                loop {
+                    if pos >= queue.len() {
+                        if b >= batches.len() {
+                            return None; // never closed (cannot happen with end-of-stream closing)
+                        }
+                        queue.extend(batches[b].0.iter().copied());
+                        need = need.max(batches[b].1);
+                        b += 1;
+                        continue;
+                    }
+                    match queue[pos] {
+                        Flat::Start(x) if x == id => depth += 1,
+                        Flat::End(x) if x == id => {
+                            if depth == 0 {
+                                break;
+                            }
+                            depth -= 1;
+                        }
+                        _ => {}
+                    }
+                    pos += 1;
+                }
+                // Start..End collapse into one item
+                for _ in 0..pos {
+                    queue.pop_front();
+                }
+            }
+        }
+        queue.pop_front();
+        needs.push(need);
+    }
+    needs.push(len);
+    Some(needs)
+}
+
 fn stage(i: &Input, c: &mut Case) -> Result<(), String> {
     let mut t = Tape::new(i.tape());
     let big = t.chance(1, 12);
@@ -246,11 +328,26 @@ fn stage(i: &Input, c: &mut Case) -> Result<(), String> {
         }
         // schedule
         let mut steps: Vec<AStep> = Vec::new();
-        let want_multi = buffered.is_empty() && t.chance(2, 3);
+        let want_multi = t.chance(2, 3);
         let mut nonempty_reads = 1;
-        if want_multi && len > 0 {
-            let unbuf = base.clone();
-            let need = needs_per_call(&unbuf, len);
+        // per-call byte requirements: directly from the parse, or (with buffered masters) simulated from the unbuffered parse
+        let need_opt: Option<Vec<usize>> = if !want_multi || len == 0 {
+            None
+        } else if buffered.is_empty() {
+            Some(needs_per_call(&base, len))
+        } else {
+            let unbuf = read_all::<T>(&m.bytes, &ReadCfg { buffered: vec![], ..cfg.clone() });
+            let n = needs_per_call_buffered(&unbuf, &buffered, len);
+            // the simulation must reproduce the number of items the buffered parse really emits, else fall back to a single read
+            match n {
+                Some(v) if v.len() == items_of(&base).len() + 1 => {
+                    c.label("multi_read_with_buffered_masters");
+                    Some(v)
+                }
+                _ => None,
+            }
+        };
+        if let Some(need) = need_opt {
             // cumulative delivery b_j >= need_j for the j-th call; the adapter caps each read at 64 KiB
             let mut delivered = 0usize;
             let mut j = 0usize;
@@ -381,6 +478,7 @@ pub fn run(rc: &mut RunCtx) {
     rc.require_label("schedules", "has_pending", 100_000);
     rc.require_label("schedules", "buffered_set", 50_000);
     rc.require_label("schedules", "input_larger_than_64KiB", 5_000);
+    rc.require_label("schedules", "multi_read_with_buffered_masters", 30_000);
     if !rc.quick() {
         rc.run_fuzz(Some(STAGES[0]), 350);
     }
